@@ -32,10 +32,13 @@ structure S where
   toParent : List String
   /-- the OS process has been joined -/
   joined : Bool
+  /-- `_result_at_end`: the result `end()` collected from a command that was still in flight -/
+  kept : Option String
   deriving Repr, DecidableEq
 
 def fresh : S :=
-  { pending := none, ended := false, alive := true, toWorker := [], toParent := [], joined := false }
+  { pending := none, ended := false, alive := true, toWorker := [], toParent := [], joined := false,
+    kept := none }
 
 /-- `send_command` (with the pre-check) -/
 def send (s : S) (c : Cmd) : Except Err S :=
@@ -56,11 +59,17 @@ def workerDrain (s : S) : S :=
       else st)
     { s with toWorker := [] }
 
-/-- `get_command_result` (blocks until the worker has answered) -/
+/-- `get_command_result` (blocks until the worker has answered); once the worker is gone it
+hands out the result `end()` kept -/
 def get (s : S) : Except Err (S × String) :=
   match s.pending with
   | none => .error .nothingPending
   | some _ =>
+    if s.ended then
+      match s.kept with
+      | some r => .ok ({ s with pending := none, kept := none }, r)
+      | none => .error .workerGone
+    else
     let s' := workerDrain s
     match s'.toParent with
     | r :: rest => .ok ({ s' with pending := none, toParent := rest }, r)
@@ -70,9 +79,10 @@ def get (s : S) : Except Err (S × String) :=
 def stop (s : S) : Except Err S :=
   if s.ended then .ok s
   else
+    -- a pending result is collected and kept for a caller that is about to ask for it
     let collected : Except Err S :=
       match s.pending with
-      | some _ => (get s).map (·.1)
+      | some _ => (get s).map (fun sr => { sr.1 with kept := some sr.2 })
       | none => .ok s
     match collected with
     | .error e => .error e
